@@ -199,6 +199,7 @@ type Setup struct {
 	ClientTLS  *tls.Config
 	Spec       *quic.QUICSpec // nil: plain Transport
 	Qlog       bool
+	MTU        int // link MTU in bytes; 0 = unlimited (65535)
 }
 
 // Env is a running scenario.
@@ -243,7 +244,14 @@ func Start(s Setup) (*Env, error) {
 	if rtt == 0 {
 		rtt = 20 * time.Millisecond
 	}
-	settings := simnet.NodeBiDiLinkSettings{Latency: rtt / 2}
+	// simnet links default to MTU 1400 and drop larger datagrams BEFORE the router sees them;
+	// Setup.MTU = 0 means "no limit" so that every datagram an endpoint emits is logged.
+	mtu := s.MTU
+	if mtu == 0 {
+		mtu = 65535
+	}
+	settings := simnet.NodeBiDiLinkSettings{Latency: rtt / 2,
+		Downlink: simnet.LinkSettings{MTU: mtu}, Uplink: simnet.LinkSettings{MTU: mtu}}
 	cpc := sim.NewEndpoint(ClientAddr, settings)
 	spc := sim.NewEndpoint(ServerAddr, settings)
 	if err := sim.Start(); err != nil {
